@@ -183,6 +183,18 @@ def bestQuotaIndex : List (Species W) → Nat → Int → Option Nat → Option 
     if s.expectedOffspring ≥ mx then bestQuotaIndex ss (i + 1) s.expectedOffspring (some i)
     else bestQuotaIndex ss (i + 1) mx best
 
+/-- "make up for lost floating point precision": if the quotas total less than the population size the last species
+    with maximal quota gets one more; if that still is not enough ("population died") it gets everything -/
+def fixupQuotas (species : List (Species W)) (totalExpected totalOrganisms : Int) : List (Species W) :=
+  if totalExpected < totalOrganisms then
+    match bestQuotaIndex species 0 0 none with
+    | none => species
+    | some b =>
+      if totalExpected + 1 < totalOrganisms then
+        (species.map (fun s => { s with expectedOffspring := 0 })).modify b (fun s => { s with expectedOffspring := totalOrganisms })
+      else species.modify b (fun s => { s with expectedOffspring := s.expectedOffspring + 1 })
+  else species
+
 /-- `Population.purgeZeroOffspringSpecies` -/
 def purgeZeroOffspringSpecies (p : Pop W) : Pop W :=
   let orgs := p.orgList
@@ -193,16 +205,7 @@ def purgeZeroOffspringSpecies (p : Pop W) : Pop W :=
     if eq overallAverage zero then o else { o with expectedOffspring := div o.fitness overallAverage }
   let species1 := p.species.map (fun s => { s with orgs := s.orgs.map setExp })
   let (species2, _, totalExpected) := assignQuotas species1 zero 0
-  let species3 :=
-    if totalExpected < totalOrganisms then
-      match bestQuotaIndex species2 0 0 none with
-      | none => species2
-      | some b =>
-        let finalExpected := totalExpected + 1
-        if finalExpected < totalOrganisms then
-          (species2.map (fun s => { s with expectedOffspring := 0 })).modify b (fun s => { s with expectedOffspring := totalOrganisms })
-        else species2.modify b (fun s => { s with expectedOffspring := s.expectedOffspring + 1 })
-    else species2
+  let species3 := fixupQuotas species2 totalExpected totalOrganisms
   { p with species := species3.filter (fun s => s.expectedOffspring > 0) }
 
 /-! ### delta coding and stolen babies: these act on the *sorted* species list; the result is written back
